@@ -7,7 +7,7 @@ use std::{rc::Rc, sync::{Arc, Mutex}};
 
 use rand::Rng;
 use serde_json::json;
-use zksync_concurrency::{ctx, oneshot, verif::{sched_point, tokio_shim as gtokio}};
+use zksync_concurrency::{ctx, oneshot, verif::{self, sched_point, tokio_shim as gtokio}};
 use zksync_consensus_bft as bft;
 use zksync_consensus_network::io::ConsensusReq;
 use zksync_consensus_roles::validator::{self, v2};
@@ -73,8 +73,28 @@ pub async fn run(seed: u64, sched: Rc<Sched>, keep_log: bool) -> (CaseResult, Ve
     let (send, mut recv) = bft::create_input_channel();
     let send = Arc::new(send);
     let mut handles = vec![];
+    // "Parallel burst" mode: the senders are (simulated) OS threads, so that `send` itself is
+    // interleaved at every access to the shared queue (hook: watch shim), as it is between the
+    // RPC handler tasks of a multi-threaded runtime; the consumer starts when they are done.
+    let burst = rng.gen_range(0..100) < 35;
+    let senders_done = Arc::new(std::sync::atomic::AtomicBool::new(!burst));
     for list in msgs {
         let (send, hist) = (send.clone(), hist.clone());
+        if burst {
+            handles.push(gtokio::task::spawn_blocking(move || {
+                for (id, m, (key, kind, view, valid), yields) in list {
+                    for _ in 0..yields {
+                        verif::preempt();
+                    }
+                    let h = kit::hash_bytes(&zksync_protobuf::encode(&m));
+                    hist.rec(Ev::Send { id, key, kind, view, valid, h });
+                    let (ack, _r) = oneshot::channel();
+                    send.send(ConsensusReq { msg: m, ack });
+                    verif::preempt();
+                }
+            }));
+            continue;
+        }
         handles.push(gtokio::spawn(async move {
             for (id, m, (key, kind, view, valid), yields) in list {
                 for _ in 0..yields {
@@ -94,7 +114,11 @@ pub async fn run(seed: u64, sched: Rc<Sched>, keep_log: bool) -> (CaseResult, Ve
     let (hist2, known2, root2) = (hist.clone(), known.clone(), root.clone());
     let stop = Arc::new(std::sync::atomic::AtomicBool::new(false));
     let stop2 = stop.clone();
+    let senders_done2 = senders_done.clone();
     let consumer = gtokio::spawn(async move {
+        while !senders_done2.load(std::sync::atomic::Ordering::SeqCst) {
+            let _ = root2.sleep(zksync_concurrency::time::Duration::milliseconds(5)).await;
+        }
         loop {
             // The consumer is sometimes slow, so that messages pile up and get pruned.
             for _ in 0..consumer_rounds {
@@ -123,6 +147,7 @@ pub async fn run(seed: u64, sched: Rc<Sched>, keep_log: bool) -> (CaseResult, Ve
     d.tick_pct = 3;
     d.tick_sizes = vec![1_000_000];
     let end = d.drive(|| handles.iter().all(|h| h.is_finished()), |_| {}).await;
+    senders_done.store(true, std::sync::atomic::Ordering::SeqCst);
     // Drain: let the consumer empty the queue, then stop it via its receive timeout.
     let mut harness_error = None;
     if !matches!(end, DriveEnd::Done) {
@@ -135,8 +160,63 @@ pub async fn run(seed: u64, sched: Rc<Sched>, keep_log: bool) -> (CaseResult, Ve
         harness_error.get_or_insert("consumer did not finish".to_string());
     }
     d.drain().await;
-    // Reference model over the linearised history.
     let events = hist.lock().unwrap().events.clone();
+    if burst {
+        // Every send completed before anything was received, in an unknown order (the sends were
+        // interleaved inside): whatever the order, the queue ends with exactly one message per
+        // (sender, kind) which had a valid message, and it is one of highest view.
+        hist.probe("parallel_burst");
+        let mut best: std::collections::BTreeMap<(usize, u8), u64> = Default::default();
+        let mut by_hash: std::collections::BTreeMap<u64, (usize, u8, u64, bool)> = Default::default();
+        for (_, e) in &events {
+            if let Ev::Send { key, kind, view, valid, h, .. } = e {
+                by_hash.entry(*h).or_insert((*key, *kind, *view, *valid));
+                if *valid {
+                    let b = best.entry((*key, *kind)).or_insert(0);
+                    *b = (*b).max(*view);
+                }
+            }
+        }
+        let mut got: std::collections::BTreeMap<(usize, u8), Vec<u64>> = Default::default();
+        for (no, e) in &events {
+            if let Ev::Recv { h } = e {
+                let (key, kind, view, valid) = by_hash[h];
+                if !valid {
+                    hist.violation("C16", "badly_signed_message_delivered", format!("event {no}: message {h:x} of sender {key} kind {kind} has a bad signature"));
+                }
+                got.entry((key, kind)).or_default().push(view);
+            }
+        }
+        for (k, views) in &got {
+            if views.len() > 1 {
+                hist.violation(
+                    "C16",
+                    "several_pending_messages_for_one_sender_and_kind",
+                    format!("sender {} kind {}: {} messages (views {views:?}) were pending at once after a burst of concurrent sends; at most one may be", k.0, k.1, views.len()),
+                );
+            } else if best.get(k).is_some_and(|b| *b != views[0]) {
+                hist.violation("C16", "stale_message_survived", format!("sender {} kind {}: the pending message has view {}, a valid one with view {} was sent", k.0, k.1, views[0], best[k]));
+            }
+        }
+        for k in best.keys() {
+            if !got.contains_key(k) && harness_error.is_none() {
+                hist.violation("C16", "message_lost", format!("sender {} kind {}: valid messages were sent, none was delivered", k.0, k.1));
+            }
+        }
+        let states = vec![kit::mix(7, kit::mix(best.len() as u64, got.values().map(|v| v.len() as u64).sum()))];
+        return finish(
+            seed,
+            "channel",
+            &sched,
+            &hist,
+            d.sim_ns,
+            total > best.len(),
+            states,
+            json!({"keys": nkeys, "senders": senders, "messages": total, "view_span": view_span, "mode": "parallel burst", "pairs": best.len()}),
+            harness_error,
+        );
+    }
+    // Reference model over the linearised history.
     let mut model: Vec<(u64, usize, u8, u64)> = vec![]; // (content, key, kind, view)
     let mut max_len = 0;
     let mut replaced = 0;
